@@ -26,6 +26,14 @@ class Protocol:
             for ct, tr, _ in l.conds:
                 if ct[0] == 'cmp' and ct[1] in ('==', 'is') and ct[3][0] == 'g' and ct[3][1] == MOD:
                     s.stop = ct[3]
+        if s.stop is None:
+            # the marker is what stop() sends
+            stm = cx.model.find_method(MOD, s.worker, 'stop')
+            if stm is not None:
+                for l in cx.leaves_of(*stm):
+                    for e in l.effects:
+                        if e[0] == 'call' and e[1][0] == 'call' and e[1][1][0] == 'attr' and e[1][1][1] == ('self',) and len(e[1][2]) == 1 and e[1][2][0][0] == 'g' and e[1][2][0][1] == MOD:
+                            s.stop = e[1][2][0]
         s.isstop = lambda t: s.stop is not None and t == s.stop
 
     def is_inbox_call(s, t, names):
@@ -116,50 +124,75 @@ def check(repo, rep):
                 ok = pr.is_inbox_call(l.value, ('get',))
                 rep.ob('F4: a received message is returned unchanged', ok, cx.where(gm[0], l.node), 'Worker._get_message:returns', 'returns %s' % show(l.value)[:80], sample=dict(function='_get_message', returns=show(l.value)[:70]))
     # ---------------------------------------------------------------- F3 the worker loop
+    # decided semantically: the message taken from the inbox is given each of its three kinds (the stop marker, None = timeout, a data
+    # message) and taken through the path conditions of run(); whatever the loop looks like (break / return in a helper / walrus /
+    # a predicate function), the path a kind takes must do what the protocol says
+    from ..semantic import evaluator, Undecided
+    from ..termeval import NotEvaluable
     run = cx.model.find_method(MOD, wcls, 'run')
     rl = cx.leaves_of(*run)
     hook = None
-    kinds = dict(stop=0, data=0, none=0)
+    where = cx.where(run[0], run[2])
+    STOPVAL = 'STOP-MARKER'
+    DATAVAL = (7, 'a-region')
+    taken = dict(stop=[], none=[], data=[])
+    undecided = None
     for l in rl:
         msgs = pr.message_terms(l)
         if len({id(e[3]) for e in l.effects if e[0] == 'call' and e[1] in msgs}) != 1:
-            rep.ob('F3: one message is taken per loop iteration', False, cx.where(run[0], run[2]), 'Worker.run:messages-per-iteration', '%d message reads on a path' % len(msgs))
+            if any(e[0] == 'loop-enter' for e in l.effects) or not msgs:
+                rep.ob('F3: one message is taken per loop iteration', False, where, 'Worker.run:messages-per-iteration', '%d message reads on a path' % len(msgs))
             continue
         msg = msgs[0]
-        isstop = any(ct[0] == 'cmp' and ct[1] in ('==', 'is') and ct[2] == msg and pr.isstop(ct[3]) and tr for ct, tr, _ in l.conds)
-        notstop = any(ct[0] == 'cmp' and ct[1] in ('==', 'is') and ct[2] == msg and pr.isstop(ct[3]) and not tr for ct, tr, _ in l.conds)
-        isnone = any((g := norm_cmp(ct, tr)) and g[0] == 'is' and g[1] == msg and g[2] == ('c', None) for ct, tr, _ in l.conds) or any(ct == msg and not tr for ct, tr, _ in l.conds)
-        notnone = any((g := norm_cmp(ct, tr)) and g[0] == 'is not' and g[1] == msg and g[2] == ('c', None) for ct, tr, _ in l.conds) or any(ct == msg and tr for ct, tr, _ in l.conds)
-        proc = [e for e in l.effects if e[0] == 'call' and e[1][0] == 'call' and e[1][1][0] == 'attr' and e[1][1][1] == ('self',) and e[1][2] == (msg,)]
-        post = [e for e in l.effects if e[0] == 'call' and e[1][0] == 'call' and e[1][1][0] == 'attr' and e[1][1][1] == ('self',) and not e[1][2] and e[1] != msg and e[1][1][2] != '_get_message']
-        where = cx.where(run[0], run[2])
-        if isstop:
-            kinds['stop'] += 1
-            exits = [e for e in l.effects if e[0] == 'loop-exit']
-            ok = l.outcome in ('fall', 'return') and exits and exits[-1][1] in ('break', 'return') and not proc      # `return` only inside an inlined loop helper: the post-process obligation below decides what follows
-            rep.ob('F3: the stop marker ends the loop (and is not processed as a detection)', bool(ok), where, 'Worker.run[STOP]', 'outcome %s, processed %s' % (l.outcome, [show(p[1])[:40] for p in proc]))
-            idx_exit = max(i for i, e in enumerate(l.effects) if e[0] == 'loop-exit') if exits else -1
-            after = [e for e in post if l.effects.index(e) > idx_exit]
-            rep.ob('F3: after the stop marker the worker runs its post-processing hook once and terminates', len(after) == 1, where, 'Worker.run[STOP]:post-process', 'calls after the loop: %s' % [show(e[1])[:40] for e in after],
-                   sample=dict(message='STOP', trace=['get', 'leave loop'] + [show(e[1]) for e in after]))
-        elif notnone and (notstop or not any(ct[0] == 'cmp' and ct[2] == msg and pr.isstop(ct[3]) for ct, tr, _ in l.conds)) and not isnone:
-            kinds['data'] += 1
-            ok = len(proc) == 1 and l.outcome == 'loop-back'
-            rep.ob('F3: a data message is processed exactly once and the loop continues', ok, where, 'Worker.run[DATA]', 'process calls %s, outcome %s' % ([show(p[1])[:50] for p in proc], l.outcome),
-                   sample=dict(message='DATA', trace=['get'] + [show(p[1])[:50] for p in proc] + ['continue']))
-            if len(proc) == 1:
-                hook = proc[0][1][1][2]
-        elif isnone and not isstop:
-            kinds['none'] += 1
-            ok = not proc and l.outcome == 'loop-back'
-            rep.ob('F3: a queue timeout (None) neither processes nor ends the loop -- the worker keeps waiting', ok, where, 'Worker.run[NONE]', 'process calls %s, outcome %s' % ([show(p[1])[:50] for p in proc], l.outcome),
-                   sample=dict(message='NONE (timeout)', trace=['get', 'continue']))
-        else:
-            rep.unknown('Worker.run: path not classified: %s' % [(show(c[0])[:50], c[1]) for c in l.conds])
-    for k, n in kinds.items():
-        if n == 0 and rep.inconclusive:
-            continue            # an unclassified path may be that case: already INCONCLUSIVE
-        rep.ob('F3: the worker loop has a %s case' % k, n >= 1, cx.where(run[0], run[2]), 'Worker.run:missing-%s-case' % k)
+        for kind, val in (('stop', STOPVAL), ('none', None), ('data', DATAVAL)):
+            a_ = {msg: val}
+            if pr.stop is not None:
+                a_[pr.stop] = STOPVAL
+            ok_ = True
+            try:
+                for ct, tr, _ in l.conds:
+                    if not any(x == msg for x in walk(ct)):
+                        continue
+                    ev_ = evaluator(a_)
+                    got = ev_.ev(ct)
+                    if ev_.leaves:
+                        raise Undecided('condition %s depends on %s' % (show(ct)[:50], [show(k)[:30] for k in ev_.leaves][:2]))
+                    if bool(got) != tr:
+                        ok_ = False
+                        break
+            except (Undecided, NotEvaluable) as exc:
+                undecided = str(exc)
+                ok_ = False
+            if ok_:
+                taken[kind].append((l, msg))
+    if undecided:
+        rep.unknown('Worker.run: a condition on the message could not be evaluated (%s)' % undecided)
+    else:
+        for kind, label in (('stop', 'STOP'), ('none', 'NONE'), ('data', 'DATA')):
+            if not taken[kind]:
+                rep.ob('F3: the worker loop has a %s case' % kind, False, where, 'Worker.run:missing-%s-case' % kind)
+                continue
+            rep.ob('F3: the worker loop has a %s case' % kind, True, where)
+            for l, msg in taken[kind]:
+                proc = [e for e in l.effects if e[0] == 'call' and e[1][0] == 'call' and e[1][1][0] == 'attr' and e[1][1][1] == ('self',) and e[1][2] == (msg,)]
+                post = [e for e in l.effects if e[0] == 'call' and e[1][0] == 'call' and e[1][1][0] == 'attr' and e[1][1][1] == ('self',) and not e[1][2] and e[1] != msg and e[1][1][2] != '_get_message']
+                if kind == 'stop':
+                    ok = l.outcome in ('fall', 'return') and not proc
+                    rep.ob('F3: the stop marker ends the loop (and is not processed as a detection)', bool(ok), where, 'Worker.run[STOP]', 'outcome %s, processed %s' % (l.outcome, [show(p[1])[:40] for p in proc]))
+                    iget = max(i for i, e in enumerate(l.effects) if e[0] == 'call' and e[1] == msg)
+                    after = [e for e in post if l.effects.index(e) > iget]
+                    rep.ob('F3: after the stop marker the worker runs its post-processing hook once and terminates', len(after) == 1, where, 'Worker.run[STOP]:post-process', 'calls after the stop marker was read: %s' % [show(e[1])[:40] for e in after],
+                           sample=dict(message='STOP', trace=['get', 'leave loop'] + [show(e[1]) for e in after]))
+                elif kind == 'data':
+                    ok = len(proc) == 1 and l.outcome == 'loop-back'
+                    rep.ob('F3: a data message is processed exactly once and the loop continues', ok, where, 'Worker.run[DATA]', 'process calls %s, outcome %s' % ([show(p[1])[:50] for p in proc], l.outcome),
+                           sample=dict(message='DATA', trace=['get'] + [show(p[1])[:50] for p in proc] + ['continue']))
+                    if len(proc) == 1:
+                        hook = proc[0][1][1][2]
+                else:
+                    ok = not proc and l.outcome == 'loop-back'
+                    rep.ob('F3: a queue timeout (None) neither processes nor ends the loop -- the worker keeps waiting', ok, where, 'Worker.run[NONE]', 'process calls %s, outcome %s' % ([show(p[1])[:50] for p in proc], l.outcome),
+                           sample=dict(message='NONE (timeout)', trace=['get', 'continue']))
     # ---------------------------------------------------------------- F5 tokenizer worker
     tk = pr.tok
     trun = cx.model.find_method(MOD, tk, 'run')
